@@ -248,6 +248,29 @@ where
     doc
 }
 
+/// Emit only the trivia (comments) attached to a token that the printer writes itself or
+/// re-creates later (a list comma, a brace): the comments must not disappear with it.
+fn emit_trivia_of_token<'a, D, A>(
+    token_index: usize,
+    ctx: &PrintContext,
+    allocator: &'a D,
+) -> DocBuilder<'a, D, A>
+where
+    D: DocAllocator<'a, A>,
+    D::Doc: Clone,
+{
+    let mut doc = allocator.nil();
+    if let Some(idx) = find_preparsed_index(token_index, ctx.preparsed) {
+        for trivia in ctx.preparsed.get_leading_trivia(idx, ctx.tokens) {
+            doc = doc.append(emit_trivia(trivia, ctx.source, allocator));
+        }
+        for trivia in ctx.preparsed.get_trailing_trivia(idx, ctx.tokens) {
+            doc = doc.append(emit_trivia(trivia, ctx.source, allocator));
+        }
+    }
+    doc
+}
+
 /// Emit a trivia token (comment or whitespace)
 fn emit_trivia<'a, D, A>(trivia: &Token, source: &str, allocator: &'a D) -> DocBuilder<'a, D, A>
 where
@@ -982,7 +1005,7 @@ where
 
     let mut result = allocator.nil();
     let mut in_body = false;
-    let mut body_docs = Vec::new();
+    let mut body_docs: Vec<DocBuilder<'a, D, A>> = Vec::new();
     let mut open_brace_trivia = allocator.nil();
     let mut has_open_trivia = false;
 
@@ -1015,6 +1038,24 @@ where
                     continue;
                 }
                 TokenKind::BlockEnd => {
+                    // Comments attached to `}`: those in front of it close the body, those after it follow it
+                    let mut close_leading = allocator.nil();
+                    let mut close_trailing = allocator.nil();
+                    if let Some(idx) = find_preparsed_index(*token_index, ctx.preparsed) {
+                        for trivia in ctx.preparsed.get_leading_trivia(idx, ctx.tokens) {
+                            close_leading =
+                                close_leading.append(emit_trivia(trivia, ctx.source, allocator));
+                        }
+                        for trivia in ctx.preparsed.get_trailing_trivia(idx, ctx.tokens) {
+                            close_trailing =
+                                close_trailing.append(emit_trivia(trivia, ctx.source, allocator));
+                        }
+                    }
+                    if let Some(last) = body_docs.pop() {
+                        body_docs.push(last.append(close_leading));
+                    } else {
+                        open_brace_trivia = open_brace_trivia.append(close_leading);
+                    }
                     // Build body with indentation
                     if !body_docs.is_empty() {
                         let body = allocator.intersperse(body_docs.clone(), allocator.hardline());
@@ -1038,7 +1079,7 @@ where
                         // Empty block but has trailing comment on {
                         result = result.append(open_brace_trivia.clone());
                     }
-                    result = result.append(allocator.text("}"));
+                    result = result.append(allocator.text("}")).append(close_trailing);
                     in_body = false;
                     continue;
                 }
@@ -1583,8 +1624,9 @@ where
                 TokenKind::Comma => {
                     // Skip commas - we'll add them with proper breaking
                     saw_comma = true;
+                    let comma_trivia = emit_trivia_of_token(*token_index, ctx, allocator);
                     if let Some(item) = current.take() {
-                        items.push(item);
+                        items.push(item.append(comma_trivia));
                     }
                     continue;
                 }
@@ -1800,7 +1842,7 @@ where
     D::Doc: Clone + Pretty<'a, D, A>,
     A: Clone,
 {
-    let mut items = Vec::new();
+    let mut items: Vec<DocBuilder<'a, D, A>> = Vec::new();
     let mut found_open = false;
     let mut open_doc = allocator.nil();
     let mut close_doc = allocator.nil();
@@ -1812,15 +1854,23 @@ where
             let token = &ctx.tokens[*token_index];
             match token.kind {
                 TokenKind::BlockBegin => {
-                    open_doc = allocator.text("{");
+                    open_doc = allocator
+                        .text("{")
+                        .append(emit_trivia_of_token(*token_index, ctx, allocator));
                     found_open = true;
                     continue;
                 }
                 TokenKind::BlockEnd => {
-                    close_doc = allocator.text("}");
+                    close_doc = allocator
+                        .text("}")
+                        .append(emit_trivia_of_token(*token_index, ctx, allocator));
                     continue;
                 }
                 TokenKind::Comma => {
+                    let comma_trivia = emit_trivia_of_token(*token_index, ctx, allocator);
+                    if let Some(last) = items.pop() {
+                        items.push(last.append(comma_trivia));
+                    }
                     continue;
                 }
                 TokenKind::Ident | TokenKind::IdentFunction | TokenKind::IdentVariable => {
